@@ -108,7 +108,13 @@ VARIES = (
     "of a path, heartbeats after which the device is locked in the bootloader (unsafe device, "
     "PIN change pending), silences of a day inside an outage, managers that served thousands of "
     "requests, devices off the bus for several attempts, -u together with a PIN, secrets in "
-    "environment variables (PIN, PASSWORD), directories named ~, last pushes over 520 bytes")
+    "environment variables (PIN, PASSWORD), directories named ~, last pushes over 520 bytes, "
+    "0x / 0X prefixes on every hex field (each on a fresh manager), requests of 10 001 and "
+    "65 535 blocks, tweaks whose derived scalar begins with zero bytes, certificate keys of "
+    "another curve sharing coordinates with a P-256 key, the same key asked before and after "
+    "a heartbeat that found another device, UI exit exchanges ending in errors / time-outs / "
+    "answers, authorizations saved twice and to other paths, PINs with the characters "
+    "between Z and a, devices asking for a mebibyte one byte at a time (2^20 exchanges)")
 
 IDEAS = (
     "a code path only reached through a rarely used command-line option, environment variable or "
